@@ -54,7 +54,7 @@ def gen_history(rng, p):
         if rng.random() < 0.5:
             st["admin"] = rng.randint(0, 2)
         if rng.random() < 0.35:
-            st["salt"] = rng.choice(["s", "salt-%d" % rng.randint(0, 9)])
+            st["salt"] = rng.choice(["s", "salt-%d" % rng.randint(0, 9), "salt-%d" % rng.randint(0, 9), ""])   # incl. the empty salt, which the chain refuses
         return st
     steps.append(mk_inst())
     n_inst = 1
